@@ -6,7 +6,7 @@
 //! carry the real hash values (per key, per value projection, per hashed word stream) and the
 //! REAL iteration order of every map at the moment it is digested / synced.
 //! Oracle (on the real code only): equal states with differing digests, different states with
-//! equal digests, post-sync state != merge, a limit-starved sync that stops making progress.
+//! equal digests (any difference at all: the value hash covers the whole value), post-sync state != merge, a limit-starved sync that stops making progress.
 //!
 //! Note: `HashMap` iteration orders come from per-process `RandomState` keys and are not
 //! reproducible across runs; the generated *contents* are deterministic in `--seed`.
@@ -274,15 +274,23 @@ fn digest_ops(out: &mut Out, rng: &mut Rng, p: &Pair, src: &str) -> (StateDigest
     oracle_digests(out, &p.a, &p.b, &da, &db, p.depth, src);
     // run-time check of the ideal-hash assumptions on the values actually used
     let mut kh: BTreeMap<u64, &String> = BTreeMap::new();
-    let mut vh: BTreeMap<u64, (u64, u64, Option<Vec<u8>>)> = BTreeMap::new();
+    let mut vh: BTreeMap<u64, MRv> = BTreeMap::new();
     for s in [&p.a, &p.b] {
         for (k, v) in s.iter() {
             let d = KeyDigest::new(k, v);
             let m = MRv::from_real(v);
-            let pk = (m.t, m.r, live(&m));
             let c1 = kh.insert(d.key_hash, k).map(|o| o != k).unwrap_or(false);
-            let c2 = vh.insert(d.value_hash, pk.clone()).map(|o| o != pk).unwrap_or(false);
+            let prev = vh.insert(d.value_hash, m.clone());
+            let c2 = prev.as_ref().map(|o| *o != m).unwrap_or(false);
             out.count(if c1 || c2 { "hash:collision-observed" } else { "hash:injective-on-used-values" });
+            if c2 {
+                // two different values with the same value hash: a single-key state holding one or
+                // the other has the same digest (a false "in sync")
+                let o = prev.unwrap();
+                out.violation(&format!("C18:digest:value-hash-blind:{}", diff_class(&o, &m)),
+                    &format!("KeyDigest::new gives two different values the same value_hash {} (they differ in: {})", d.value_hash, diff_class(&o, &m)),
+                    json!({"key": k, "value_a": o.show(), "value_b": m.show(), "value_hash": d.value_hash, "source": src}));
+            }
         }
     }
     (da, db)
